@@ -175,8 +175,8 @@ class Run:
         for op in WORKFLOW[WORKFLOW.index(handler):]:
             r = await self.op(op)
             out = r["out"]
-            if out == "raised" and r.get("err") == "ValueError" and "already" in r.get("msg", ""):
-                out = "already"
+            if out == "raised" and r.get("err") == "ValueError":
+                out = "already"          # a refusal; Layer A accepts it only if the step's effect is already in place (AlreadyDone)
             elif out != "ok":
                 out = out + ":" + r.get("err", "")
             self.ev.append({"e": "rstep", "op": op, "out": out, "msg": r.get("msg", "")})
